@@ -976,7 +976,7 @@ def run(ck):
     proof_ok = ck.prove(THEOREMS) if THEOREMS else None
 
     thorough = ck.tier != "quick"
-    n_schemas = 36 if not thorough else 400
+    n_schemas = int(os.environ.get("VERIF_C03_RANDOM", "0")) or (36 if not thorough else 400)   # env: development aid
     batch = 12
     rng = ck.rng
     unproved = []
